@@ -19,6 +19,18 @@ Definition lower_ascii (c : ascii) : ascii :=
 Fixpoint lower (s : string) : string :=
   match s with EmptyString => EmptyString | String c r => String (lower_ascii c) (lower r) end.
 
+(* storage/file.go validDBName: a database is a directory directly under data/, so its name is not
+   ".", ".." and contains no path separator (ErrDBNameInvalid); a directory name longer than the
+   file system allows (NAME_MAX = 255 bytes where the checks run: an oracle about the OS) makes
+   MkdirAll / Stat fail, which CreateDB / OpenRelation return as an error *)
+Fixpoint has_sep (s : string) : bool :=
+  match s with
+  | EmptyString => false
+  | String c r => (Nat.eqb (nat_of_ascii c) 47 || Nat.eqb (nat_of_ascii c) 92)%bool || has_sep r
+  end.
+Definition valid_dbname (n : string) : bool :=
+  negb (String.eqb n "." || String.eqb n ".." || has_sep n)%bool && Nat.leb (String.length n) 255.
+
 Fixpoint get_db (n : string) (l : list (string * sys)) : option sys :=
   match l with [] => None | (m, y) :: r => if String.eqb m n then Some y else get_db n r end.
 
@@ -47,6 +59,7 @@ Definition sess_stmt (s : sess) (st : stmt) : sess * sout :=
   | SCreateDatabase name =>
       let n := lower name in
       if String.eqb n "" then (s, SOErr (SEStmt EOther)) else
+      if negb (valid_dbname n) then (s, SOErr (SEStmt EOther)) else
       match get_db n (dbs s) with
       | Some _ => (s, SOErr SEDBExists)
       | None => (mkSess (dbs s ++ [(n, init_sys)]) (cur s), SOOk)
@@ -55,13 +68,15 @@ Definition sess_stmt (s : sess) (st : stmt) : sess * sout :=
       let n := lower name in
       match cur s with
       | Some c => if String.eqb c n then (s, SOOk) else
+                  if negb (valid_dbname n) then (s, SOErr (SEStmt EOther)) else
                   match get_db n (dbs s), get_db c (dbs s) with
                   | Some y, Some yc =>
                       (mkSess (set_db c (close_db yc) (set_db n (open_db y) (dbs s))) (Some n), SOOk)
                   | None, _ => (s, SOErr SEDBNotExist)
                   | _, None => (s, SOPanic)
                   end
-      | None => match get_db n (dbs s) with
+      | None => if negb (valid_dbname n) then (s, SOErr (SEStmt EOther)) else
+                match get_db n (dbs s) with
                 | Some y => (mkSess (set_db n (open_db y) (dbs s)) (Some n), SOOk)
                 | None => (s, SOErr SEDBNotExist)
                 end
